@@ -404,6 +404,13 @@ def _bytes_term(it, b):
     if t and t[0] == 'slice':
         # a window of another value: identified by (value, offset, length)
         root = _bytes_term(it, t[1])
+        try:
+            whole = it.path.implied(z3.And(t[2] == 0,
+                                           b.zlen() == t[1].zlen()))
+        except Exception:
+            whole = False
+        if whole:
+            return root
         return ufun('py_bytes_window', _B, z3.IntSort(), z3.IntSort(), _B)(
             root, t[2], b.zlen())
     raise Unsupported('codec operation on a derived bytes value')
@@ -548,4 +555,31 @@ def bytes_method(it, recv, name, args, kw):
         it.path.fact(z3.ForAll([k], z3.Implies(z3.And(k >= 0, k < i),
                                                b.at(k) != c)))
         return mk_int(i)
+    if name in ('rstrip', 'lstrip', 'strip') and len(args) == 1 and not kw \
+            and isinstance(args[0], bytes) and len(args[0]) == 1:
+        # strip one byte value from the end(s): the result is the window
+        # [lo, hi) with nothing to strip at its ends and only that byte
+        # outside it
+        from . import ops
+        b = ops.as_sbytes(recv)
+        n = b.zlen()
+        c = args[0][0]
+        lo = z3.IntVal(0)
+        hi = n
+        if name in ('rstrip', 'strip'):
+            hi = z3.Int('strip_hi!%d' % next(it.path.fresh))
+            k = z3.Int('q!%d' % next(it.path.fresh))
+            it.path.fact(z3.And(hi >= 0, hi <= n))
+            it.path.fact(z3.Or(hi == 0, b.at(hi - 1) != c))
+            it.path.fact(z3.ForAll([k], z3.Implies(
+                z3.And(k >= hi, k < n), b.at(k) == c)))
+        if name in ('lstrip', 'strip'):
+            lo = z3.Int('strip_lo!%d' % next(it.path.fresh))
+            k = z3.Int('q!%d' % next(it.path.fresh))
+            it.path.fact(z3.And(lo >= 0, lo <= hi))
+            it.path.fact(z3.Or(lo == hi, b.at(lo) != c))
+            it.path.fact(z3.ForAll([k], z3.Implies(
+                z3.And(k >= 0, k < lo), b.at(k) == c)))
+        from .core import SInt
+        return ops.bytes_slice(it, recv, slice(SInt(lo), SInt(hi), None))
     raise Unsupported('bytes.%s on symbolic bytes' % name)
